@@ -197,3 +197,63 @@ Theorem nonvacuous_writes :
   bcd_try_write true (zfield BE [18; 52; 171] 8 16) u16 16 9876 = Some (true, Some [152; 118; 171]) /\
   bcd_try_write true (zfield BE [18; 52; 171] 8 16) u16 16 10000 = Some (false, None).
 Proof. exact ex_write. Qed.
+
+(* ------------------------------------------------------------------------------------------------------------
+   The write half of the MemoryAccessor layer (Bits/Accessor.v; see Properties_C02.v for [acc_pre] and [cfg]).
+   ------------------------------------------------------------------------------------------------------------ *)
+Require Import EmbossV.Bits.Accessor EmbossV.Bits.ProofsAccessor.
+
+(* MemoryAccessor<CharT, A, K, 8n>::WriteLittleEndianUInt(bytes, value), any value of the type Unsigned:
+   exactly the n elements at the pointer are replaced, by the low n bytes of value, least significant first *)
+Theorem accessor_write_le_spec : forall cfg c A K (n : nat) base mem p value,
+  acc_pre c A K n base mem p -> 0 <= value < 2 ^ lw (8 * Z.of_nat n) ->
+  accessor_write cfg c false A K (8 * Z.of_nat n) base mem p value = Some (splice mem p (le_bytes n value)).
+Proof. exact accessor_write_le_spec_l. Qed.
+
+Theorem accessor_write_be_spec : forall cfg c A K (n : nat) base mem p value,
+  acc_pre c A K n base mem p -> 0 <= value < 2 ^ lw (8 * Z.of_nat n) ->
+  accessor_write cfg c true A K (8 * Z.of_nat n) base mem p value = Some (splice mem p (rev (le_bytes n value))).
+Proof. exact accessor_write_be_spec_l. Qed.
+
+(* no element outside [p, p + n) is touched; the n elements are the container bytes; reading them back
+   with the same accessor returns the value (its low 8n bits) *)
+Theorem accessor_write_frame : forall cfg c be A K (n : nat) base mem p value,
+  acc_pre c A K n base mem p -> 0 <= value < 2 ^ lw (8 * Z.of_nat n) ->
+  exists mem', accessor_write cfg c be A K (8 * Z.of_nat n) base mem p value = Some mem' /\
+    length mem' = length mem /\
+    (forall i d, (i < p \/ p + n <= i)%nat -> nth i mem' d = nth i mem d) /\
+    sub_storage mem' p n = container_bytes be n value /\
+    (Forall byte mem -> Forall byte mem' /\
+       accessor_read cfg c be A K (8 * Z.of_nat n) base mem' p = Some (value mod 2 ^ (8 * Z.of_nat n))).
+Proof. exact accessor_write_frame_l. Qed.
+
+(* formerly an assumption tested every run: static alignment does not change the bytes stored, and they are the
+   ones [container_store] of Bits/Model.v produces (either runtime configuration [opt] of that model) *)
+Theorem aligned_writes_agree : forall cfg c be A K (n : nat) base mem p value opt,
+  acc_pre c A K n base mem p -> 0 <= value < 2 ^ (8 * Z.of_nat n) ->
+  accessor_write cfg c be A K (8 * Z.of_nat n) base mem p value
+  = accessor_write cfg c be 1 0 (8 * Z.of_nat n) base mem p value /\
+  exists bs, container_store opt (order_of be) (8 * Z.of_nat n) (sub_storage mem p n) value = Some bs /\
+             accessor_write cfg c be A K (8 * Z.of_nat n) base mem p value = Some (splice mem p bs).
+Proof. exact aligned_writes_agree_l. Qed.
+
+Theorem char_storage_irrelevant_for_writes : forall cfg c1 c2 be A K (n : nat) base mem p value,
+  acc_pre c1 A K n base mem p -> alias_safe c2 = true -> 0 <= value < 2 ^ lw (8 * Z.of_nat n) ->
+  accessor_write cfg c1 be A K (8 * Z.of_nat n) base mem p value
+  = accessor_write cfg c2 be A K (8 * Z.of_nat n) base mem p value.
+Proof. exact char_storage_irrelevant_writes_l. Qed.
+
+(* casts of the write loops that are NOT necessary under GCC's modular conversion to a signed type: the inner
+   static_cast<uint8_t>, and the `if (sizeof value > 1)` guard around `value >>= 8` (the operand is promoted to int
+   first, so the shift is defined for uint8_t too) *)
+Theorem write_uint8_cast_redundant : forall c ct mem k value,
+  store_char c mem k (c_cast u8 (ct, value)) = store_char c mem k (ct, value).
+Proof. exact write_uint8_cast_redundant_l. Qed.
+
+Theorem write_shift_guard_redundant : forall ct c p nb value mem, std_cty ct -> csigned ct = false ->
+  (p + nb <= length mem)%nat -> 8 * Z.of_nat nb <= cbits ct -> 0 <= value < 2 ^ cbits ct ->
+  write_loop_with false ct c (fun i => (p + i)%nat) nb 0 value mem
+  = write_loop_with true ct c (fun i => (p + i)%nat) nb 0 value mem /\
+  write_loop_with false ct c (fun i => (p + (nb - 1 - i))%nat) nb 0 value mem
+  = write_loop_with true ct c (fun i => (p + (nb - 1 - i))%nat) nb 0 value mem.
+Proof. exact write_shift_guard_redundant_l. Qed.
